@@ -1462,6 +1462,9 @@ def run(repo, chk, tier):
     from ..cacheown import check_persistent_state
 
     check_persistent_state(repo, chk, ["tf_pwa/data.py", "tf_pwa/config_loader/data.py", "tf_pwa/root_io.py"])
+    from .c18_copy import check_merge_identity
+
+    check_merge_identity(repo, chk)
     chk.rule("K1", "each structural recursion dispatches on exactly its confirmed container kinds (frozen table)")
     chk.rule("K2", "partner functions handle the same kinds; flatten/nest agree on leaf kinds and dict order")
     chk.rule("K3", "each container branch iterates the complete container and recurses on the element")
